@@ -145,27 +145,32 @@ func (sto *overlayStorage) RemoveBlobs(ctx context.Context, blobs []blob.Ref) er
 	return sto.deleted.CommitBatch(m)
 }
 
-func (sto *overlayStorage) isDeleted(br blob.Ref) bool {
+func (sto *overlayStorage) isDeleted(br blob.Ref) (bool, error) {
 	if sto.deleted == nil {
-		return false
+		return false, nil
 	}
 
 	_, err := sto.deleted.Get(br.String())
 	if err == nil {
-		return true
+		return true, nil
 	}
 
-	if !errors.Is(err, sorted.ErrNotFound) {
-		log.Printf("overlayStorage error accessing deleted: %v", err)
+	if errors.Is(err, sorted.ErrNotFound) {
+		return false, nil
 	}
 
-	return false
+	// We don't know: presenting a blob which might have been deleted would be wrong.
+	return false, fmt.Errorf("overlayStorage error accessing deleted: %w", err)
 }
 
 // Fetch the blob by trying first the upper and then lower.
 // The lower storage is checked only if the blob was not deleleted in sto itself.
 func (sto *overlayStorage) Fetch(ctx context.Context, br blob.Ref) (file io.ReadCloser, size uint32, err error) {
-	if sto.isDeleted(br) {
+	deleted, err := sto.isDeleted(br)
+	if err != nil {
+		return nil, 0, err
+	}
+	if deleted {
 		return nil, 0, os.ErrNotExist
 	}
 
@@ -181,7 +186,11 @@ func (sto *overlayStorage) Fetch(ctx context.Context, br blob.Ref) (file io.Read
 func (sto *overlayStorage) StatBlobs(ctx context.Context, blobs []blob.Ref, f func(blob.SizedRef) error) error {
 	exists := make([]blob.Ref, 0, len(blobs))
 	for _, br := range blobs {
-		if !sto.isDeleted(br) {
+		deleted, err := sto.isDeleted(br)
+		if err != nil {
+			return err
+		}
+		if !deleted {
 			exists = append(exists, br)
 		}
 	}
@@ -218,17 +227,28 @@ func (sto *overlayStorage) EnumerateBlobs(ctx context.Context, dest chan<- blob.
 	for sent < limit {
 		ch := make(chan blob.SizedRef)
 		errch := make(chan error, 1)
+		ectx, cancel := context.WithCancel(ctx)
 		go func() {
-			errch <- blobserver.MergedEnumerate(ctx, ch, enums, after, limit-sent)
+			errch <- blobserver.MergedEnumerate(ectx, ch, enums, after, limit-sent)
 		}()
 
 		var last blob.Ref
 
 		// Yield all blobs that weren't deleted from ch to destch.
 		seen := 0
+		var delErr error
 		for sbr := range ch {
+			if delErr != nil {
+				continue // drain
+			}
 			seen++
-			if !sto.isDeleted(sbr.Ref) {
+			deleted, err := sto.isDeleted(sbr.Ref)
+			if err != nil {
+				delErr = err
+				cancel()
+				continue
+			}
+			if !deleted {
 				log.Println(sent, sbr.Ref)
 				dest <- sbr
 				sent++
@@ -236,7 +256,12 @@ func (sto *overlayStorage) EnumerateBlobs(ctx context.Context, dest chan<- blob.
 			last = sbr.Ref
 		}
 
-		if err := <-errch; err != nil {
+		err := <-errch
+		cancel()
+		if delErr != nil {
+			return delErr
+		}
+		if err != nil {
 			return err
 		}
 
